@@ -488,6 +488,56 @@ async fn h_m_pqm(rqctx: RequestContext<Ctx>, p: Path<Tag>, q: Query<QTag>, _b: M
 }
 pub const CAP_SMALL: usize = 256;
 
+// ---- a wide query struct and body endpoints with a large limit (large-scope slice) ----
+
+#[derive(Deserialize, JsonSchema)]
+pub struct QWide {
+    pub f00: Option<u16>,
+    pub f01: Option<u16>,
+    pub f02: Option<u16>,
+    pub f03: Option<u16>,
+    pub f04: Option<u16>,
+    pub f05: Option<u16>,
+    pub f06: Option<u16>,
+    pub f07: Option<u16>,
+    pub f08: Option<u16>,
+    pub f09: Option<u16>,
+    pub f10: Option<u16>,
+    pub f11: Option<u16>,
+    pub f12: Option<u16>,
+    pub f13: Option<u16>,
+    pub f14: Option<u16>,
+    pub f15: Option<u16>,
+    pub f16: Option<u16>,
+    pub f17: Option<u16>,
+    pub f18: Option<u16>,
+    pub f19: Option<u16>,
+    pub f20: Option<u16>,
+    pub f21: Option<u16>,
+    pub f22: Option<u16>,
+    pub f23: Option<u16>,
+    pub f24: Option<u16>,
+    pub f25: Option<u16>,
+    pub f26: Option<u16>,
+    pub f27: Option<u16>,
+    pub f28: Option<u16>,
+    pub f29: Option<u16>,
+    pub f30: Option<u16>,
+    pub f31: Option<u16>,
+    pub f32: Option<u16>,
+}
+impl EchoStruct for QWide {
+    fn fields(&self) -> Vec<(String, Fv)> {
+        vec![opt("f00", &self.f00), opt("f01", &self.f01), opt("f02", &self.f02), opt("f03", &self.f03), opt("f04", &self.f04), opt("f05", &self.f05), opt("f06", &self.f06), opt("f07", &self.f07), opt("f08", &self.f08), opt("f09", &self.f09), opt("f10", &self.f10), opt("f11", &self.f11), opt("f12", &self.f12), opt("f13", &self.f13), opt("f14", &self.f14), opt("f15", &self.f15), opt("f16", &self.f16), opt("f17", &self.f17), opt("f18", &self.f18), opt("f19", &self.f19), opt("f20", &self.f20), opt("f21", &self.f21), opt("f22", &self.f22), opt("f23", &self.f23), opt("f24", &self.f24), opt("f25", &self.f25), opt("f26", &self.f26), opt("f27", &self.f27), opt("f28", &self.f28), opt("f29", &self.f29), opt("f30", &self.f30), opt("f31", &self.f31), opt("f32", &self.f32)]
+    }
+}
+async fn h_qwide(rqctx: RequestContext<Ctx>, q: Query<QWide>) -> R {
+    let mut e = enter(&rqctx);
+    e.structs.push(q.into_inner().fields());
+    Ok(HttpResponseOk(e))
+}
+pub const CAP_BIG: usize = 2 * 1024 * 1024;
+
 // ------------------------------------------------------------ registration
 
 const JSON: &str = "application/json";
@@ -551,6 +601,21 @@ pub fn build_api() -> (ApiDescription<Ctx>, Ctx) {
             ops.push($op.to_string());
         };
     }
+    reg!("qwide", h_qwide, Method::GET, JSON, "/qwide");
+    macro_rules! reg_big {
+        ($op:literal, $h:expr, $m:expr, $ct:expr, $path:literal) => {
+            api.register(
+                ApiEndpoint::new($op.to_string(), $h, $m, $ct, $path, ApiEndpointVersions::All)
+                    .request_body_max_bytes(CAP_BIG),
+            )
+            .expect("register");
+            ops.push($op.to_string());
+        };
+    }
+    reg_big!("big_json", h_bj, Method::PUT, JSON, "/big/json");
+    reg_big!("big_form", h_bf, Method::PUT, FORM, "/big/form");
+    reg_big!("big_raw", h_raw, Method::PUT, OCTET, "/big/raw");
+    reg_big!("big_stream", h_stream, Method::PUT, OCTET, "/big/stream");
     reg_small!("m_pq", h_m_pq, Method::GET, JSON, "/m/pq/{tag}/{n}");
     reg_small!("m_pqj", h_all, Method::PUT, JSON, "/m/pqj/{tag}/{n}");
     reg_small!("m_pf", h_m_pf, Method::PUT, FORM, "/m/pf/{tag}/{n}");
